@@ -253,13 +253,13 @@ def gen_pipe(rnd, depth, allow_inf=False):
         if allow_inf and r < 0.3:
             return f"(inf {rnd.randint(1, 20)})"
         if r < 0.45:
-            return f"(src {rnd.choice([0, 0, 1, 2, 3, 5, 8, 13])})"
+            return f"(src {rnd.choice([0, 0, 1, 2, 3, 5, 8, 13, 21, 40])})"
         return f"(src {rnd.randint(0, 9)} {rnd.randint(-5, 30)})"
     p = source() if depth == 0 or rnd.random() < 0.15 else None
     if p is None:
         kind = rnd.choice(["chain", "chain", "chain", "concat", "flatmap"])
         if kind == "concat":
-            members = [gen_pipe(rnd, depth - 1) if rnd.random() < 0.7 else "(src 0)" for _ in range(rnd.randint(2, 4))]
+            members = [gen_pipe(rnd, depth - 1) if rnd.random() < 0.7 else "(src 0)" for _ in range(rnd.randint(2, 4) if rnd.random() < 0.85 else rnd.randint(5, 7))]
             p = "(concat " + " ".join(members) + ")"
         elif kind == "flatmap":
             fam = rnd.choice(['rep', 'tri'])       # `tri K` uses take(K): K >= 1 (take(0) is outside the property: n >= 1)
@@ -280,9 +280,9 @@ def gen_pipe(rnd, depth, allow_inf=False):
         elif st == "scan":
             p = f"(scan lin {rnd.choice([1, 2, 3])} {rnd.randint(0, 5)} {p})"
         elif st == "take":
-            p = f"(take {rnd.randint(1, 6)} {p})"; inf_inside = False
+            p = f"(take {rnd.randint(1, 6) if rnd.random() < 0.85 else rnd.randint(7, 15)} {p})"; inf_inside = False
         else:
-            p = f"(skip {rnd.randint(0, 4)} {p})"
+            p = f"(skip {rnd.randint(0, 4) if rnd.random() < 0.85 else rnd.randint(5, 12)} {p})"
     if inf_inside:
         p = f"(take {rnd.randint(1, 6)} {p})"
     return p
